@@ -64,17 +64,27 @@ func (l lenCond) max() int {
 }
 func (l lenCond) Match(w []byte) bool { return l.has(len(w)) }
 func (l lenCond) String() string      { return fmt.Sprintf("user length-in%v", l.lens) }
-func (l lenCond) New() dawg.Searcher  { return &lenS{c: l} }
+func (l lenCond) New() dawg.Searcher {
+	s := &lenS{max: l.max()}
+	s.ok = make([]bool, s.max+2)
+	for _, x := range l.lens {
+		if x >= 0 {
+			s.ok[x] = true
+		}
+	}
+	return s
+}
 
 type lenS struct {
-	c     lenCond
+	max   int
+	ok    []bool // ok[n]: n is one of the lengths
 	depth int
 }
 
-func (s *lenS) AllowStep(b byte) bool { return s.depth < s.c.max() }
+func (s *lenS) AllowStep(b byte) bool { return s.depth < s.max }
 func (s *lenS) Step(b byte)           { s.depth++ }
 func (s *lenS) Backstep()             { s.depth-- }
-func (s *lenS) AllowWord() bool       { return s.c.has(s.depth) }
+func (s *lenS) AllowWord() bool       { return s.depth >= 0 && s.depth < len(s.ok) && s.ok[s.depth] }
 func (s *lenS) Chosen()               {}
 
 // sumCond: the sum of the bytes is r modulo m (no pruning at all).
@@ -121,9 +131,14 @@ type prefixS struct {
 }
 
 func (s *prefixS) AllowStep(b byte) bool {
-	cand := append(append([]byte{}, s.path...), b)
+	// path+b is a prefix of x, or x is a prefix of path+b (written without building path+b: the path can be long)
+	n := len(s.path)
 	for _, x := range s.c.ps {
-		if bytes.HasPrefix(x, cand) || bytes.HasPrefix(cand, x) {
+		if len(x) > n {
+			if x[n] == b && bytes.Equal(x[:n], s.path) {
+				return true
+			}
+		} else if bytes.HasPrefix(s.path, x) {
 			return true
 		}
 	}
@@ -233,6 +248,14 @@ func (s *budgetS) Chosen()         { s.in.Chosen() }
 // number of trie nodes; a generous factor on top.
 func stepLimit(set *refdawg.Set) int { return 8*set.Trie().Size() + 1000 }
 
+// stepLimit of a built set, computed once (the trie of a set of long words is large).
+func (b *built) stepLimit() int {
+	if b.limit == 0 {
+		b.limit = stepLimit(b.set)
+	}
+	return b.limit
+}
+
 // event kinds of the protocol trace
 const (
 	evAllowStep = iota
@@ -284,6 +307,14 @@ func (s *recS) Chosen() {
 	s.in.Chosen()
 }
 
+// qb quotes a byte string for a message; a long one is cut.
+func qb(w []byte) string {
+	if len(w) <= 64 {
+		return fmt.Sprintf("%q", w)
+	}
+	return fmt.Sprintf("%q...(%d bytes)", w[:48], len(w))
+}
+
 // checkTrace checks the callback protocol of one Search with n searchers:
 // Step / Backstep / Chosen come in complete rounds over all searchers; a Step(b)
 // round follows AllowStep(b) == true of every searcher at the current
@@ -314,20 +345,25 @@ func checkTrace(tr *trace, n int, set *refdawg.Set, solns [][]byte) (rule, what 
 		wordNo = false
 	}
 	names := []string{"AllowStep", "Step", "Backstep", "AllowWord", "Chosen"}
-	for k, e := range tr.ev {
-		at := fmt.Sprintf("event %d (%s of searcher %d) after stepping %q", k, names[e.kind], e.who, path)
+	// the description of the position is only built when a rule is broken (the path can be thousands of bytes long)
+	var k int
+	var e event
+	at := func() string {
+		return fmt.Sprintf("event %d (%s of searcher %d) after stepping %s", k, names[e.kind], e.who, qb(path))
+	}
+	for k, e = range tr.ev {
 		if int(e.who) >= n {
-			return "unknown-searcher", at
+			return "unknown-searcher", at()
 		}
 		if grp != -1 && int(e.kind) != grp {
-			return "incomplete-round", fmt.Sprintf("%s: a %s round had reached %d of %d searchers", at, names[grp], cnt, n)
+			return "incomplete-round", fmt.Sprintf("%s: a %s round had reached %d of %d searchers", at(), names[grp], cnt, n)
 		}
 		switch e.kind {
 		case evAllowStep:
 			al[e.who] = allowed{e.b, e.ok, true}
 		case evAllowWord:
 			if !set.Has(path) {
-				return "AllowWord-asked-at-a-non-word", at
+				return "AllowWord-asked-at-a-non-word", at()
 			}
 			if e.ok {
 				wordOK[e.who] = true
@@ -342,16 +378,16 @@ func checkTrace(tr *trace, n int, set *refdawg.Set, solns [][]byte) (rule, what 
 				}
 			}
 			if seen[e.who] {
-				return "searcher-called-twice-in-one-round", at
+				return "searcher-called-twice-in-one-round", at()
 			}
 			seen[e.who] = true
 			cnt++
 			if e.kind == evStep {
 				if e.b != grpB {
-					return "Step-letters-differ-within-a-round", at
+					return "Step-letters-differ-within-a-round", at()
 				}
 				if a := al[e.who]; !a.set || !a.ok || a.b != e.b {
-					return "Step-without-AllowStep", fmt.Sprintf("%s: Step(%q) but the last AllowStep answer of this searcher here was %+v", at, string([]byte{e.b}), a)
+					return "Step-without-AllowStep", fmt.Sprintf("%s: Step(%q) but the last AllowStep answer of this searcher here was %+v", at(), string([]byte{e.b}), a)
 				}
 			}
 			if cnt < n {
@@ -364,20 +400,20 @@ func checkTrace(tr *trace, n int, set *refdawg.Set, solns [][]byte) (rule, what 
 				resetPos()
 			case evBackstep:
 				if len(path) == 0 {
-					return "Backstep-below-the-root", at
+					return "Backstep-below-the-root", at()
 				}
 				path = path[:len(path)-1]
 				resetPos()
 			case evChosen:
 				if chosen >= len(solns) {
-					return "Chosen-more-often-than-solutions", fmt.Sprintf("%s: %d solutions returned", at, len(solns))
+					return "Chosen-more-often-than-solutions", fmt.Sprintf("%s: %d solutions returned", at(), len(solns))
 				}
 				if !bytes.Equal(path, solns[chosen]) {
-					return "Chosen-where-the-steps-do-not-spell-the-solution", fmt.Sprintf("%s: solution #%d is %q", at, chosen, solns[chosen])
+					return "Chosen-where-the-steps-do-not-spell-the-solution", fmt.Sprintf("%s: solution #%d is %s", at(), chosen, qb(solns[chosen]))
 				}
 				for i := range wordOK {
 					if !wordOK[i] || wordNo {
-						return "Chosen-without-AllowWord-of-every-searcher", at
+						return "Chosen-without-AllowWord-of-every-searcher", at()
 					}
 				}
 				chosen++
@@ -388,7 +424,7 @@ func checkTrace(tr *trace, n int, set *refdawg.Set, solns [][]byte) (rule, what 
 		return "incomplete-round", fmt.Sprintf("the trace ends inside a %s round (%d of %d searchers)", names[grp], cnt, n)
 	}
 	if len(path) != 0 {
-		return "Step-Backstep-unbalanced", fmt.Sprintf("the search returned with %q still stepped", path)
+		return "Step-Backstep-unbalanced", fmt.Sprintf("the search returned with %s still stepped", qb(path))
 	}
 	if chosen != len(solns) {
 		return "Chosen-not-once-per-solution", fmt.Sprintf("%d Chosen rounds, %d solutions returned", chosen, len(solns))
@@ -474,7 +510,7 @@ func customSearch(c *engine.Ctx, b *built, d *dawg.Dawg, callKey, tag string, cs
 	tr := &trace{}
 	var bud *budgetS
 	var ns *nestS
-	limit := stepLimit(b.set)
+	limit := b.stepLimit()
 	if pi := c.Call(callKey+"|new searchers", func() {
 		for i, x := range cs {
 			var s dawg.Searcher = x.New()
@@ -483,7 +519,7 @@ func customSearch(c *engine.Ctx, b *built, d *dawg.Dawg, callKey, tag string, cs
 					ns = &nestS{in: s, inChosen: nest.inChosen, target: d, targetSet: b.set, conds: nest.conds, maxRuns: 64, limit: limit}
 					if nest.other != nil {
 						ns.target, ns.targetSet = nest.other.d, nest.other.set
-						ns.limit = stepLimit(nest.other.set)
+						ns.limit = nest.other.stepLimit()
 					}
 					s = ns
 				}
@@ -511,7 +547,7 @@ func customSearch(c *engine.Ctx, b *built, d *dawg.Dawg, callKey, tag string, cs
 		return false
 	}
 	if bud != nil && bud.tripped {
-		c.Violation("Search|runaway|"+w, det, fmt.Sprintf("the search was still asking AllowStep after %d calls to one searcher; the trie of the word set has %d nodes", bud.limit, b.set.Trie().Size()), "at most one AllowStep per searcher, node of the trie and outgoing letter")
+		c.Violation("Search|runaway|"+w, det, fmt.Sprintf("the search was still asking AllowStep after %d calls to one searcher; the trie of the word set has %d nodes", bud.limit, (bud.limit-1000)/8), "at most one AllowStep per searcher, node of the trie and outgoing letter")
 		return false
 	}
 	if f := compareConds(solns, ids, b.set, cs); f != nil {
@@ -539,6 +575,21 @@ func customSearch(c *engine.Ctx, b *built, d *dawg.Dawg, callKey, tag string, cs
 				return false
 			}
 		}
+		// the inner results are the caller's as well: overwrite them all, the outer results must not notice
+		for k, r := range ns.runs {
+			if msg := overwriteResults(c, r.solns); msg != "" {
+				c.Violation("Search|inner-results-share-memory|"+w, det, fmt.Sprintf("inner search #%d: %s", k, msg), "independent byte slices")
+				return false
+			}
+		}
+		if len(ns.runs) > 0 {
+			c.Eval(1)
+			if f := compareConds(solns, ids, b.set, cs); f != nil {
+				c.Violation("Search|outer-results-share-memory-with-inner-results|"+w, det, "after the caller has overwritten the words returned by the inner searches: "+f.Observed, f.Expected)
+				return false
+			}
+			c.Obs("ownership:outer_results_intact_after_overwriting_inner_results", 1)
+		}
 		name := "nested:from_" + det["inner_search_started_from"].(string)
 		if nest.other != nil {
 			name += "_on_another_dawg"
@@ -548,6 +599,15 @@ func customSearch(c *engine.Ctx, b *built, d *dawg.Dawg, callKey, tag string, cs
 		if len(ns.runs) > 0 {
 			c.Obs(name, 1)
 			c.Obs("nested:inner_searches", len(ns.runs))
+		}
+	}
+	for _, x := range solns {
+		if len(x) > 1024 {
+			c.Obs("long:searches_behind_recorders_returning_a_word_of_more_than_1024_bytes", 1)
+			if ns != nil && len(ns.runs) > 0 {
+				c.Obs("long:nested_searches_whose_outer_search_returns_a_word_of_more_than_1024_bytes", 1)
+			}
+			break
 		}
 	}
 	if msg := overwriteResults(c, solns); msg != "" {
@@ -572,7 +632,7 @@ func customSearch(c *engine.Ctx, b *built, d *dawg.Dawg, callKey, tag string, cs
 		c.Obs("custom:library_searchers_behind_recorder", 1)
 	}
 	if nontrivialResult(b.set, nSolns) {
-		c.NT("custom", tag, b.set.Hash(), condsString(cs))
+		c.NT("custom", tag, b.hash(), condsString(cs))
 	}
 	return true
 }
@@ -794,7 +854,10 @@ func customOn(c *engine.Ctx, b *built, other *built, callKey string, rg *engine.
 		}
 	}
 	// cold / warm: the same conjunction on a Dawg that has just been searched deeply and on one that has never been searched
-	cold := buildFor(c, callKey+"|cold", b.set)
+	if b.noCold {
+		return true
+	}
+	cold := buildLong(c, callKey+"|cold", b.set, b.slowOK)
 	if cold == nil {
 		return true
 	}
